@@ -260,8 +260,12 @@ def walk_trees(
                     and filter_path.startswith(path + b"/")
                     and (is_tree1 or is_tree2)
                 ):
-                    # This is a parent directory of a filter path
-                    yield entry1, entry2
+                    # This is a parent directory of a filter path: only a
+                    # tree leads there, a non-tree of that name is outside it
+                    yield (
+                        entry1 if is_tree1 else None,
+                        entry2 if is_tree2 else None,
+                    )
                     break
 
 
